@@ -293,7 +293,12 @@ def canon_trace(spec, nfin, k, max_actions=2000000):
                     # the documented client: `for cp_action in cp_schedule: ...; break` — one loop for the forward
                     # calculation, one per adjoint calculation; leaving a loop must not disturb the schedule
                     if phase_it is None:
+                        # obtaining the iterator requests no action: no attribute may change (is_running in
+                        # particular stays False until the first action has been requested)
+                        before_iter = flags(o)
                         phase_it = iter(o)
+                        if flags(o) != before_iter:
+                            lines.append("B iter-changed-state " + flags(o))
                     a = next(phase_it)
                     if isinstance(a, (cs.EndForward, cs.EndReverse)):
                         del phase_it
